@@ -18,6 +18,9 @@ use std::time::Duration;
 #[derive(Clone, Copy, PartialEq, Eq, Debug)]
 enum Sym {
     Cls(usize),
+    /// protected / private inheritance from class i: not an edge of the public class graph
+    Prot(usize),
+    Priv(usize),
     Missing,
     NotAClass,
 }
@@ -26,13 +29,24 @@ struct Space {
     n: usize,
     syms: Vec<Sym>,
     lists: Vec<Vec<Sym>>, // all super lists of length <= max_supers
+    /// third alphabet: class Ci lives in its own module mi; which modules mi imports is part of the
+    /// enumerated graph (a super name resolves only in the class's own module and its imports)
+    modules: bool,
 }
 
 impl Space {
-    fn new(n: usize, max_supers: usize) -> Self {
+    fn new(n: usize, max_supers: usize, access: bool, modules: bool) -> Self {
         let mut syms: Vec<Sym> = (0..n).map(Sym::Cls).collect();
-        syms.push(Sym::Missing);
-        syms.push(Sym::NotAClass);
+        if modules {
+            // classes only; dangling references arise from missing imports
+        } else if access {
+            // second alphabet: every edge public, protected or private (no dangling names)
+            syms.extend((0..n).map(Sym::Prot));
+            syms.extend((0..n).map(Sym::Priv));
+        } else {
+            syms.push(Sym::Missing);
+            syms.push(Sym::NotAClass);
+        }
         let mut lists = vec![vec![]];
         let mut frontier = vec![vec![]];
         for _ in 0..max_supers {
@@ -47,12 +61,29 @@ impl Space {
             lists.extend(next.iter().cloned());
             frontier = next;
         }
-        Space { n, syms, lists }
+        Space { n, syms, lists, modules }
+    }
+    fn import_configs(&self) -> u64 {
+        if self.modules {
+            1u64 << (self.n * (self.n - 1))
+        } else {
+            1
+        }
     }
     fn graphs(&self) -> u64 {
-        (self.lists.len() as u64).pow(self.n as u32)
+        (self.lists.len() as u64).pow(self.n as u32) * self.import_configs()
     }
-    fn decode(&self, mut g: u64) -> Vec<&Vec<Sym>> {
+    /// does module i import module j (i != j)?
+    fn imports(&self, g: u64, i: usize, j: usize) -> bool {
+        if !self.modules {
+            return true;
+        }
+        let bits = g % self.import_configs();
+        let k = i * (self.n - 1) + if j < i { j } else { j - 1 };
+        bits >> k & 1 == 1
+    }
+    fn decode(&self, g: u64) -> Vec<&Vec<Sym>> {
+        let mut g = g / self.import_configs();
         let base = self.lists.len() as u64;
         let mut out = Vec::with_capacity(self.n);
         for _ in 0..self.n {
@@ -65,7 +96,7 @@ impl Space {
 
 fn sym_name(s: Sym) -> String {
     match s {
-        Sym::Cls(i) => format!("C{i}"),
+        Sym::Cls(i) | Sym::Prot(i) | Sym::Priv(i) => format!("C{i}"),
         Sym::Missing => "Missing".to_owned(),
         Sym::NotAClass => "En".to_owned(),
     }
@@ -76,20 +107,46 @@ fn describe(sp: &Space, g: u64, mask: u32) -> String {
     let mut parts = vec![];
     for (i, l) in supers.iter().enumerate() {
         let decl = if mask >> i & 1 == 1 { " {p,m,E}" } else { "" };
+        let imp = if sp.modules {
+            format!(
+                " in m{i} importing [{}]",
+                (0..sp.n)
+                    .filter(|&j| j != i && sp.imports(g, i, j))
+                    .map(|j| format!("m{j}"))
+                    .collect::<Vec<_>>()
+                    .join(",")
+            )
+        } else {
+            String::new()
+        };
         parts.push(format!(
-            "C{i}: [{}]{decl}",
-            l.iter().map(|&s| sym_name(s)).collect::<Vec<_>>().join(", ")
+            "C{i}{imp}: [{}]{decl}",
+            l.iter()
+                .map(|&s| match s {
+                    Sym::Prot(_) => format!("protected {}", sym_name(s)),
+                    Sym::Priv(_) => format!("private {}", sym_name(s)),
+                    _ => sym_name(s),
+                })
+                .collect::<Vec<_>>()
+                .join(", ")
         ));
     }
     parts.join("; ")
 }
 
-fn build_type_map(sp: &Space, supers: &[&Vec<Sym>], mask: u32) -> TypeMap {
+fn build_type_map(sp: &Space, g: u64, supers: &[&Vec<Sym>], mask: u32) -> TypeMap {
     let mut type_map = TypeMap::with_primitive_types();
     let mut md = ModuleData::with_builtins();
     let mut classes = Vec::with_capacity(sp.n);
     for (i, l) in supers.iter().enumerate() {
         let mut c = metatype::Class::with_supers(format!("C{i}"), l.iter().map(|&s| sym_name(s)));
+        for (spec, &s) in c.super_classes.iter_mut().zip(l.iter()) {
+            match s {
+                Sym::Prot(_) => spec.access = metatype::AccessSpecifier::Protected,
+                Sym::Priv(_) => spec.access = metatype::AccessSpecifier::Private,
+                _ => {}
+            }
+        }
         if mask >> i & 1 == 1 {
             let mut p = metatype::Property::new("p", "int");
             p.read = Some("p".to_owned());
@@ -106,6 +163,19 @@ fn build_type_map(sp: &Space, supers: &[&Vec<Sym>], mask: u32) -> TypeMap {
         }
         classes.push(c);
     }
+    if sp.modules {
+        for (i, c) in classes.into_iter().enumerate() {
+            let mut mi = ModuleData::with_builtins();
+            for j in 0..sp.n {
+                if j != i && sp.imports(g, i, j) {
+                    mi.import_module(ModuleId::Named(&format!("m{j}")));
+                }
+            }
+            mi.extend([c]);
+            type_map.insert_module(ModuleId::Named(&format!("m{i}")), mi);
+        }
+        return type_map;
+    }
     md.extend(classes);
     md.extend([metatype::Enum::with_values("En", ["EnA", "EnB"])]);
     type_map.insert_module(ModuleId::Named("m"), md);
@@ -118,7 +188,7 @@ struct Model {
     err_reach: Vec<bool>,  // an unresolvable / non-class super is reachable
 }
 
-fn model(sp: &Space, supers: &[&Vec<Sym>]) -> Model {
+fn model(sp: &Space, g: u64, supers: &[&Vec<Sym>]) -> Model {
     let n = sp.n;
     let mut reach = vec![vec![false; n]; n];
     let mut has_err = vec![false; n];
@@ -126,7 +196,9 @@ fn model(sp: &Space, supers: &[&Vec<Sym>]) -> Model {
         reach[i][i] = true;
         for &s in supers[i].iter() {
             match s {
-                Sym::Cls(j) => reach[i][j] = true,
+                Sym::Cls(j) if j == i || sp.imports(g, i, j) => reach[i][j] = true,
+                Sym::Cls(_) => has_err[i] = true, // the name is not visible from this class's module
+                Sym::Prot(_) | Sym::Priv(_) => {} // not public: neither an edge nor an error
                 _ => has_err[i] = true,
             }
         }
@@ -244,13 +316,19 @@ fn judge_lookup(
 fn check_case(sp: &Space, g: u64, mask: u32, st: &mut Stats) {
     let supers = sp.decode(g);
     let n = sp.n;
-    let m = model(sp, &supers);
-    let tm = build_type_map(sp, &supers, mask);
-    let module = tm.get_module(ModuleId::Named("m")).expect("module");
+    let m = model(sp, g, &supers);
+    let tm = build_type_map(sp, g, &supers, mask);
+    let module_names: Vec<String> = (0..n)
+        .map(|i| if sp.modules { format!("m{i}") } else { "m".to_owned() })
+        .collect();
+    let module = tm.get_module(ModuleId::Named(&module_names[0])).expect("module");
     let classes: Vec<Class> = (0..n)
-        .map(|i| match module.get_type(&format!("C{i}")) {
-            Some(Ok(NamedType::Class(c))) => c,
-            other => panic!("class C{i} not found: {other:?}"),
+        .map(|i| {
+            let mo = tm.get_module(ModuleId::Named(&module_names[i])).expect("module");
+            match mo.get_type(&format!("C{i}")) {
+                Some(Ok(NamedType::Class(c))) => c,
+                other => panic!("class C{i} not found: {other:?}"),
+            }
         })
         .collect();
     let declared: Vec<bool> = (0..n).map(|i| mask >> i & 1 == 1).collect();
@@ -388,6 +466,9 @@ fn check_case(sp: &Space, g: u64, mask: u32, st: &mut Stats) {
             }
         }
     }
+    if sp.modules {
+        return;
+    }
     // module-level enum variant resolves to the enum that lists it
     st.queries += 2;
     match module.get_enum_by_variant("EnB") {
@@ -407,6 +488,8 @@ pub fn run(args: &[String]) -> i32 {
     let mut max_supers = 2usize;
     let mut threads = 16usize;
     let mut stall_secs = 20u64;
+    let mut access = false;
+    let mut modules = false;
     let mut i = 0;
     while i < args.len() {
         match args[i].as_str() {
@@ -414,6 +497,10 @@ pub fn run(args: &[String]) -> i32 {
             "--max-supers" => max_supers = args[i + 1].parse().unwrap(),
             "--threads" => threads = args[i + 1].parse().unwrap(),
             "--stall-secs" => stall_secs = args[i + 1].parse().unwrap(),
+            "--alphabet" => {
+                access = args[i + 1] == "access";
+                modules = args[i + 1] == "modules";
+            }
             o => {
                 eprintln!("unknown option {o}");
                 return 2;
@@ -421,7 +508,7 @@ pub fn run(args: &[String]) -> i32 {
         }
         i += 2;
     }
-    let sp = Arc::new(Space::new(n, max_supers));
+    let sp = Arc::new(Space::new(n, max_supers, access, modules));
     let total = sp.graphs();
     let nmask = 1u32 << n;
     let progress: Arc<Vec<AtomicU64>> = Arc::new((0..threads).map(|_| AtomicU64::new(0)).collect());
@@ -485,7 +572,7 @@ pub fn run(args: &[String]) -> i32 {
                     let mut st = Stats::default();
                     for g in lo..hi {
                         let supers = sp.decode(g);
-                        let m = model(&sp, &supers);
+                        let m = model(&sp, g, &supers);
                         st.graphs += 1;
                         let n = sp.n;
                         if (0..n).any(|i| (0..n).any(|j| i != j && m.reach[i][j] && m.reach[j][i]))
@@ -531,7 +618,7 @@ pub fn run(args: &[String]) -> i32 {
         .map(|&g| describe(&sp, g, (g % nmask as u64) as u32))
         .collect();
     let out = json!({
-        "n": n, "max_supers": max_supers, "symbols": sp.syms.len(), "super_lists": sp.lists.len(),
+        "n": n, "max_supers": max_supers, "alphabet": if access { "access" } else if modules { "modules" } else { "dangling" }, "symbols": sp.syms.len(), "super_lists": sp.lists.len(),
         "graphs": st.graphs, "graphs_total": total, "cases": st.cases, "queries": st.queries,
         "cyclic_graphs": st.cyclic_graphs, "dangling_graphs": st.dangling_graphs,
         "multi_super_graphs": st.diamond_like,
